@@ -6,7 +6,7 @@ parameter names, so positional/keyword style, variable names of temporaries and 
   * zernike_compose: one loop over np.ndenumerate(coeffs) accumulating coeff * zernike(mask, <index expr>, normalize, rho, theta);
   * zernike_basis: one loop over np.ndenumerate(modes) storing zernike(mask, mode, normalize, rho, theta) at the loop position, and the
     vectorised return reshaping to (number of modes, -1);
-  * zernike_fit: basis = zernike_basis(mask, modes, vectorize=True, normalize, rho, theta); pinv of it; einsum('ij,i->j', pinv, opd.ravel());
+  * zernike_fit: basis = zernike_basis(mask, modes, vectorize=True, normalize, rho, theta); pinv of it; einsum(<subscripts>, pinv, opd.ravel(order=...)) — the subscripts become the definition Gen.fitContract, the flattening order Gen.ravelIndex;
   * zernike_remove: the fit and the basis are requested with the same (mask, modes, rho, theta) and the library-default normalisation, and
     the residual is opd - einsum('ijk,i->jk', basis, coeffs)."""
 import ast, os
@@ -54,6 +54,39 @@ def _index_expr(src_expr, loopvar):
         raise Refuse(f'compose index expression {src_expr!r}')
     return tr(e)
 
+def _einsum_def(name, subs, doc):
+    """`np.einsum('<a>,<b>-><out>', A, v)` with a 1-D second operand whose index is contracted and sits first or last in the first operand:
+    a Lean contraction, generic in the type `S` of the remaining (row-major) output indices and in the summation"""
+    subs = subs.replace(' ', '')
+    try:
+        ins, out = subs.split('->'); a, b = ins.split(',')
+    except ValueError: raise Refuse(f'{name}: einsum subscripts {subs!r}')
+    if len(b) != 1 or a.count(b) != 1 or b in out or out != a.replace(b, '') or len(set(a)) != len(a):
+        raise Refuse(f'{name}: einsum {subs!r} is not the contraction of one index of the first operand with a vector')
+    pos = a.index(b)
+    if pos == 0: ty, app = 'Nat → S → K', 'a i s'
+    elif pos == len(a) - 1: ty, app = 'S → Nat → K', 'a s i'
+    else: raise Refuse(f'{name}: einsum {subs!r} contracts an inner index')
+    return (f'/-- {doc}: `einsum({subs!r}, a, b)` — `{b}` is summed, `s` stands for the remaining indices `{out}` -/\n'
+            f'def {name} {{K S : Type}} [Mul K] (sum : Nat → (Nat → K) → K) (n : Nat) (a : {ty}) (b : Nat → K) (s : S) : K :=\n'
+            f'  sum n fun i => {app} * b i\n')
+
+def _order_def(name, order, doc):
+    """flat sample number of array element (r, c) of an (nr, nc) array"""
+    if order == 'C': body, extra = 'r * nc + c', ''
+    elif order == 'F': body, extra = 'c * nr + r', ''
+    else: body, extra = 'if memoryIsFortran then c * nr + r else r * nc + c', ' (memoryIsFortran : Bool)'      # 'K' / 'A': depends on the memory layout
+    return f'/-- {doc} (order {order!r}) -/\ndef {name}{extra} (nr nc r c : Nat) : Nat := {body}\n'
+
+def _order_of(call, what):
+    if call.args and not (what == 'reshape'): raise Refuse(f'{what}: positional order argument')
+    o = 'C'
+    for k in call.keywords:
+        if k.arg != 'order': raise Refuse(f'{what}: keyword {k.arg}')
+        o = ast.literal_eval(k.value)
+    if o not in ('C', 'F', 'K', 'A'): raise Refuse(f'{what}: order {o!r}')
+    return o
+
 def _generator(repo):
     mod = ast.parse(open(os.path.join(repo, 'lentil/zernike.py')).read())
     Z, ZB, ZF, ZC, ZR = (_fn(mod, n) for n in ('zernike', 'zernike_basis', 'zernike_fit', 'zernike_compose', 'zernike_remove'))
@@ -87,8 +120,9 @@ def _generator(repo):
         raise Refuse(f'zernike_basis passes {b}')
     rs = [n for n in ast.walk(ZB) if isinstance(n, ast.Call) and isinstance(n.func, ast.Attribute) and n.func.attr == 'reshape']
     r = _one(rs, 'zernike_basis reshape')
-    if ast.unparse(r.func.value) != 'basis' or [ast.unparse(a).replace(' ', '') for a in r.args] != ['basis.shape[0]', '-1'] or r.keywords:
+    if ast.unparse(r.func.value) != 'basis' or [ast.unparse(a).replace(' ', '') for a in r.args] != ['basis.shape[0]', '-1']:
         raise Refuse('zernike_basis: vectorised reshape changed')
+    reshape_def = _order_def('reshapeIndex', _order_of(r, 'reshape'), '`zernike_basis(vectorize=True)`: the sample number of pixel (r, c) in `basis.reshape(k, -1)`')
     notes.append('zernike_basis: basis[position] = zernike(mask, mode at that position, normalize, rho, theta); vectorised as reshape(k, -1)')
     # ---- zernike_fit / zernike_remove: the call wiring becomes DEFINITIONS (projections of the caller's argument record)
     def field(src, caller):
@@ -107,11 +141,12 @@ def _generator(repo):
     fit_basis = record(b, ['mask', 'modes', 'vectorize', 'normalize', 'rho', 'theta'], fit_params)
     _one(_calls(ZF, 'pinv'), 'zernike_fit: pinv call')
     es = _one(_calls(ZF, 'einsum'), 'zernike_fit: einsum')
-    if len(es.args) != 3 or ast.literal_eval(es.args[0]).replace(' ', '') != 'ij,i->j': raise Refuse('zernike_fit: einsum subscripts changed')
+    if len(es.args) != 3 or es.keywords: raise Refuse('zernike_fit: einsum call changed')
+    fit_contract = _einsum_def('fitContract', ast.literal_eval(es.args[0]), '`zernike_fit`: pinv(basis) contracted with the flattened OPD')
     rav = es.args[2]
-    if not (isinstance(rav, ast.Call) and isinstance(rav.func, ast.Attribute) and rav.func.attr in ('ravel', 'flatten') and ast.unparse(rav.func.value) == 'opd'
-            and not rav.args and all(k.arg == 'order' and ast.literal_eval(k.value) == 'C' for k in rav.keywords)):
-        raise Refuse('zernike_fit: the OPD is not flattened in C order: ' + ast.unparse(rav))
+    if not (isinstance(rav, ast.Call) and isinstance(rav.func, ast.Attribute) and rav.func.attr in ('ravel', 'flatten') and ast.unparse(rav.func.value) == 'opd'):
+        raise Refuse('zernike_fit: the second einsum operand is not opd.ravel(): ' + ast.unparse(rav))
+    ravel_def = _order_def('ravelIndex', _order_of(rav, 'ravel'), '`zernike_fit`: the sample number of pixel (r, c) in `opd.ravel()`')
     notes.append("zernike_fit: einsum('ij,i->j', pinv(zernike_basis(<Gen.fitBasisArgs>)), opd.ravel())")
     _, zf_def = _params(ZF); _, zb_def = _params(ZB)
     bf = _bind(_one(_calls(ZR, 'zernike_fit'), 'zernike_remove: zernike_fit call'), ZF)
@@ -119,7 +154,8 @@ def _generator(repo):
     rem_fit = record(bf, ['opd', 'mask', 'modes', 'normalize', 'rho', 'theta'], rem_params)
     rem_basis = record(bb, ['mask', 'modes', 'vectorize', 'normalize', 'rho', 'theta'], rem_params)
     es = _one(_calls(ZR, 'einsum'), 'zernike_remove: einsum')
-    if len(es.args) != 3 or ast.literal_eval(es.args[0]).replace(' ', '') != 'ijk,i->jk': raise Refuse('zernike_remove: einsum subscripts changed')
+    if len(es.args) != 3 or es.keywords: raise Refuse('zernike_remove: einsum call changed')
+    rem_contract = _einsum_def('removeContract', ast.literal_eval(es.args[0]), '`zernike_remove`: the basis cube contracted with the fitted coefficients')
     notes.append("zernike_remove: residual = opd - einsum('ijk,i->jk', zernike_basis(<Gen.removeBasisArgs>), zernike_fit(<Gen.removeFitArgs>))")
     lean = ('/-- `zernike_compose`: the Noll index multiplied by the coefficient at 0-based position `i` -/\n'
             f'def composeNoll (i : Int) : Int := {lean_idx}\n\n'
@@ -133,7 +169,8 @@ def _generator(repo):
             '/-- `zernike_remove`: the arguments of its `zernike_fit` call -/\n'
             f'def removeFitArgs {{O Mk Md C : Type}} (a : RemoveArgs O Mk Md C) : FitArgs O Mk Md C :=\n  {rem_fit}\n\n'
             '/-- `zernike_remove`: the arguments of its `zernike_basis` call -/\n'
-            f'def removeBasisArgs {{O Mk Md C : Type}} (a : RemoveArgs O Mk Md C) : BasisArgs Mk Md C :=\n  {rem_basis}\n')
+            f'def removeBasisArgs {{O Mk Md C : Type}} (a : RemoveArgs O Mk Md C) : BasisArgs Mk Md C :=\n  {rem_basis}\n\n'
+            + fit_contract + '\n' + rem_contract + '\n' + ravel_def + '\n' + reshape_def)
     return lean, notes
 
 MODULES = [{'name': 'ZernikeCalls', 'src': 'lentil/zernike.py', 'generator': _generator, 'props': ['C12']}]
